@@ -166,11 +166,14 @@ type Ctx struct {
 	lastNonFresh map[string]bool
 	allocSeq    map[string]int
 	touchedLocks bool
+	frameKeys   []string
 }
 
 // noteWrite records a write for the function frame and, inside loops, whether it may hit a pre-existing object.
 func (c *Ctx) noteWrite(s *State, key, ref string) {
-	c.frameWrite(key, ref)
+	if !(c.freshRefs[ref] || strings.HasPrefix(ref, "(sub.") && c.freshRefs[innerRef(ref)]) {
+		c.frameEffect(s, key)
+	}
 	if s.nonFresh != nil {
 		stamp := c.allocSeq[ref]
 		if strings.HasPrefix(ref, "(sub.") {
@@ -715,14 +718,19 @@ func keyMatches(key, pat string) bool {
 }
 
 // pendingHavoc havocs every key matching the pattern, including keys not materialised yet.
+// monotoneGhosts: ghost sets that only grow (allocated objects, done contexts, closed channels)
+var monotoneGhosts = []string{"X.alloc", "X.ctxdone", "X.closed"}
+
 func (c *Ctx) pendingHavoc(s *State, prefix string) {
-	if keyMatches("X.alloc", prefix) {
-		// the allocated set only grows
-		oldAl := c.heapGet(s, "X.alloc", sA1)
-		defer func() {
-			newAl := c.heapGet(s, "X.alloc", sA1)
-			s.assume(fmt.Sprintf("(forall ((r Int)) (! (=> (= (select %s r) 1) (= (select %s r) 1)) :pattern ((select %s r))))", oldAl, newAl, oldAl))
-		}()
+	for _, mk := range monotoneGhosts {
+		if keyMatches(mk, prefix) {
+			mk := mk
+			oldAl := c.heapGet(s, mk, sA1)
+			defer func() {
+				newAl := c.heapGet(s, mk, sA1)
+				s.assume(fmt.Sprintf("(forall ((r Int)) (! (=> (= (select %s r) 1) (= (select %s r) 1)) :pattern ((select %s r))))", oldAl, newAl, oldAl))
+			}()
+		}
 	}
 	c.nfresh++
 	if os.Getenv("GOWP_DEBUG") != "" && c.dry == 0 {
